@@ -467,12 +467,15 @@ Qed.
 
 Lemma base_find st b r : nodup_live st -> base_res st b = Done r -> find_st (r_uuid r) st = Some r.
 Proof.
-  intros Hnd. destruct b as [x|x]; simpl.
+  intros Hnd. destruct b as [x|x|p]; simpl.
   - destruct (assoc x (vars st)) eqn:Ha; [|discriminate]. intro H; inversion H; subst.
     assert (Hv : NoDup (uuids_l (vars st))).
     { apply nodup_cnt. intro y. specialize (Hnd y). rewrite live_cnt in Hnd. lia. }
     unfold find_st. now rewrite (assoc_find _ _ _ Ha Hv).
   - destruct (assoc x (refs st)); [|discriminate]. now apply resolve_find.
+  - destruct (assoc p (store st)) eqn:Ha; [|discriminate]. intro H; inversion H; subst.
+    apply (resolve_find st (RSto p TI)); [assumption|].
+    cbn [resolve_rv]. unfold deref_sto. rewrite Ha. reflexivity.
 Qed.
 
 (* ------------------------------------------------------------------ uuid ranges *)
@@ -906,10 +909,11 @@ Qed.
 
 Lemma base_no_internal st b : refs_ok st -> base_res st b <> Fail EInternal.
 Proof.
-  intros Hok. destruct b as [x|r]; cbn [base_res].
+  intros Hok. destruct b as [x|r|p]; cbn [base_res].
   - destruct (assoc x (vars st)); discriminate.
   - destruct (assoc r (refs st)) as [v|] eqn:Ha; [|discriminate].
     eapply resolve_no_internal; [eassumption|apply assoc_in; eassumption].
+  - destruct (assoc p (store st)); discriminate.
 Qed.
 
 Lemma take_slot_no_internal s r : take_slot s r <> Fail EInternal.
@@ -1113,9 +1117,35 @@ Proof.
   rewrite nodup_cnt in Hnd. specialize (Hnd z). rewrite cnt_app in Hnd. lia.
 Qed.
 
+(* the same from any well-formed committed state, in particular from the one in which the
+   contract (a stored value that owns resources without being one) is present *)
+Theorem conservation_from h p p' os : hinv p [] -> run_hist h p = (p', os) ->
+  Permutation (uuids_l (p_store p) ++ created_ok (p_next p) os)
+              (map uuid3 (destroyed_ok os) ++ uuids_l (p_store p')) /\
+  NoDup (map uuid3 (destroyed_ok os) ++ uuids_l (p_store p')) /\
+  forall u e t, In (u, e, t) (destroyed_ok os) ->
+    cnt u (map fst (events_of (destroyed_ok os))) = if e then 1%nat else 0%nat.
+Proof.
+  intros Hi H. destruct (run_hist_inv h _ _ _ _ Hi H) as [[H1 _] Hc].
+  assert (Hnd : NoDup (map uuid3 (destroyed_ok os) ++ uuids_l (p_store p'))).
+  { apply nodup_cnt. intro z. specialize (H1 z). cbn [app] in H1. rewrite cnt_app. lia. }
+  split; [|split; [exact Hnd|]].
+  - apply perm_cnt. intro z. specialize (Hc z). rewrite !cnt_app. lia.
+  - intros u e t Hin. eapply events_once; [|eassumption].
+    apply nodup_cnt. intro z. rewrite nodup_cnt in Hnd. specialize (Hnd z). rewrite cnt_app in Hnd. lia.
+Qed.
+
+Lemma hinv_contract n : 0 < n -> hinv (init_pstate n) [].
+Proof.
+  intro Hn. unfold init_pstate, contract_value. split; intro z; cbn [p_store p_next];
+    unfold uuids_l; cbn [flat_map snd]; rewrite app_nil_r, uuids_cnt; unfold uuids_l; cbn [flat_map];
+    rewrite !cnt_nil; destruct (Z.eq_dec 0 z); lia.
+Qed.
+
 (* reachable states: inside any transaction of any history *)
 Inductive preach : pstate -> Prop :=
 | preach_init : forall n, preach (mkP [] n)
+| preach_contract : forall n, 0 < n -> preach (init_pstate n)
 | preach_tx : forall p cs, preach p -> preach (fst (run_tx cs p)).
 
 Inductive reach : state -> Prop :=
@@ -1124,8 +1154,9 @@ Inductive reach : state -> Prop :=
 
 Lemma preach_pwf p : preach p -> pwf p.
 Proof.
-  induction 1 as [n|p cs Hp IH].
+  induction 1 as [n|n Hn|p cs Hp IH].
   - apply (hinv_pwf _ []). apply hinv_init.
+  - apply (hinv_pwf _ []). now apply hinv_contract.
   - destruct (run_tx cs p) as [p' o] eqn:Ht. cbn [fst].
     pose proof Ht as Ht'. unfold run_tx in Ht'. destruct (run_obs cs (begin_tx p)) as [st e] eqn:Hr.
     destruct (run_obs_inv _ _ _ _ (begin_wf _ IH) Hr) as (W & N & _ & T). cbn [begin_tx next] in N.
